@@ -17,7 +17,7 @@ None == <<0, 0>>
 
 Fresh == [lastCommit |-> -1, commitFailed |-> FALSE, lastRound |-> -1, obs |-> <<>>,
           wmBegin |-> None, wmDone |-> None, cancelled |-> FALSE, down |-> FALSE,
-          deadProps |-> {}, okSync |-> -1, mainStarts |-> 0, workerStarts |-> 0, garbage |-> FALSE]
+          deadProps |-> {}, rejected |-> {}, okSync |-> -1, mainStarts |-> 0, workerStarts |-> 0, garbage |-> FALSE]
 
 Init == l = 1 /\ s = Fresh
 
@@ -37,6 +37,7 @@ Step(e) ==
     [] e.ev \in {"main.election.done", "main.election.ignored", "main.sync.done", "main.sync.ignored"} -> [s EXCEPT !.wmDone = MaxHV(@, Target(e))]
     [] e.ev = "api.cancel" -> [s EXCEPT !.cancelled = TRUE]
     [] e.ev = "shutdown.returned" -> [s EXCEPT !.down = TRUE]
+    [] e.ev = "validate.rejected" -> [s EXCEPT !.rejected = @ \cup {e.blk}]
     [] e.ev = "proposal.made" -> IF e.dead THEN [s EXCEPT !.deadProps = @ \cup {e.blk}] ELSE s
     [] e.ev = "api.update.return" -> IF e.ok /\ e.b > s.okSync THEN [s EXCEPT !.okSync = e.b] ELSE s
     [] e.ev = "main.run.start" -> [s EXCEPT !.mainStarts = @ + 1]
@@ -64,6 +65,10 @@ Judge(e) ==
   /\ Chk(e.ev = "spi.done_seen" => (s.cancelled \/ Older(<<e.h, e.v>>, s.wmBegin)), "c15_current_or_future_context_cancelled")
   /\ Chk(e.ev = "quiesce" => \A i \in DOMAIN e.blocked : ~Older(<<e.blocked[i].h, e.blocked[i].v>>, s.wmDone), "c15_blocked_call_not_released")
   /\ Chk((e.ev = "send" /\ e.kind \in {"PP", "NV"}) => e.blk \notin s.deadProps, "c15_proposal_broadcast_after_cancelled_call")
+  \* ---------------- C04 (the consumer's verdict is a function of the block: rejected once, rejected always; the peers are played
+  \* by the driver and vote for anything, so only this node's validation stands between a rejected proposal and its commit)
+  /\ Chk(e.ev = "cb.commit" => e.blk \notin s.rejected, "c04_committed_a_block_its_consumer_rejected")
+  /\ Chk((e.ev = "send" /\ e.kind \in {"P", "C"}) => e.x \notin s.rejected, "drift_voted_for_a_proposal_its_consumer_rejected")
   \* ---------------- C16
   /\ Chk(e.ev = "shutdown.returned" => (e.ok /\ e.ms <= 2500), "c16_shutdown_did_not_complete_in_time")
   /\ Chk((s.down /\ LibraryEvent(e)) => FALSE, "c16_activity_after_shutdown")
